@@ -294,14 +294,14 @@ def gen_ops(seed_parts, world, profile, max_steps):
         from .seams import ZONES
         for _ in range(erng.randint(1, 3)):
             op = {"op": "tz", "zone": erng.choice(ZONES)}
-            if erng.random() < 0.3:
+            if erng.random() < profile.get("p_env_pre", 0.3):
                 pre_ops.append(op)
             else:
                 extra.append((erng.randrange(len(ops) + 1), op))
     if "clock" in enabled:
         for _ in range(erng.randint(1, 2)):
             op = {"op": "clock", "delta": erng.choice([1, -1, 3600, -3600, 86400 * 366, -86400 * 365 * 30, 86400 * 365 * 80])}
-            if erng.random() < 0.3:
+            if erng.random() < profile.get("p_env_pre", 0.3):
                 pre_ops.append(op)
             else:
                 extra.append((erng.randrange(len(ops) + 1), op))
@@ -310,7 +310,7 @@ def gen_ops(seed_parts, world, profile, max_steps):
     return ops, pre_ops
 
 
-PROFILE_C18 = {"n_inputs": (1, 4), "p_clim": 0.25, "p_inf": 0.04}
+PROFILE_C18 = {"n_inputs": (1, 4), "p_clim": 0.25, "p_inf": 0.04, "p_obs_differ": 0.15}
 
 
 def gen_spec(prop, verif_seed, run, tier, profile=None):
